@@ -1,0 +1,34 @@
+//! Verification hooks (only compiled with the `verif-hooks` cargo feature).
+//!
+//! The randomized selection in `sort.rs` draws one pivot position per
+//! recursion level. With this feature on, a test harness can install a
+//! thread-local closure that observes every draw and may replace it, which
+//! makes pivot sequences recordable, scriptable and enumerable. With nothing
+//! installed the drawn value is passed through unchanged.
+use std::cell::RefCell;
+
+type PivotHook = Box<dyn FnMut(usize, usize) -> usize>;
+
+thread_local! {
+    static PIVOT_HOOK: RefCell<Option<PivotHook>> = RefCell::new(None);
+}
+
+/// Installs (or, with `None`, removes) the pivot hook of the current thread
+/// and returns the previously installed one. The hook is called with
+/// `(n, drawn)` where `n` is the length of the (sub)array being partitioned
+/// and `drawn` the position drawn by the random generator; it returns the
+/// position to use, which must be `< n`.
+pub fn set_pivot_hook(hook: Option<PivotHook>) -> Option<PivotHook> {
+    PIVOT_HOOK.with(|h| std::mem::replace(&mut *h.borrow_mut(), hook))
+}
+
+pub(crate) fn pivot(n: usize, drawn: usize) -> usize {
+    PIVOT_HOOK.with(|h| match h.borrow_mut().as_mut() {
+        None => drawn,
+        Some(hook) => {
+            let chosen = hook(n, drawn);
+            assert!(chosen < n, "verif pivot hook returned {} for n = {}", chosen, n);
+            chosen
+        }
+    })
+}
